@@ -5,6 +5,7 @@ name="$1"; dir="/tmp/wt/$name"
 mkdir -p /tmp/wt
 git -C /repo worktree add --detach -f "$dir" HEAD >/dev/null 2>&1
 for f in field/summator krige/krigesum variogram/estimator; do
-  cp /repo/src/gstools/$f*.so /repo/src/gstools/$f.c* "$dir/src/gstools/$(dirname $f)/"
+  cp /repo/src/gstools/$f*.so "$dir/src/gstools/$(dirname $f)/"
+  for e in c cpp; do [ -f /repo/src/gstools/$f.$e ] && cp /repo/src/gstools/$f.$e "$dir/src/gstools/$(dirname $f)/"; done
 done
 echo "$dir"
